@@ -288,6 +288,93 @@ example : statusTrailersOf 5 [0x31, 0x30, 0x30, 0x25] [⟨"type.googleapis.com/a
       bin := some { code := 5, message := [0x31, 0x30, 0x30, 0x25], details := [⟨"type.googleapis.com/a.B".toList, [1]⟩] } } := by
   decide
 
+/-! ## every decoder of the repository inverts the encoder it undoes
+
+`PercentEncodeMessage` / `grpcStatusTrailers` write the status trailers; the repository's own
+reader of them is the reference client's `checkGRPCStatus` (`url.PathUnescape` on `grpc-message`,
+compared with the message inside `grpc-status-details-bin`).  Losslessness needs both ends. -/
+
+/-- The reference client's decoder returns the message for EVERY encoding the gRPC
+specification allows - any byte escaped or not (unless it must be), hex digits in either case. -/
+theorem client_decodes_any_encoding (cs : List (UInt8 × Esc)) (h : conformant cs = true) :
+    pathUnescape (encodeWith cs) = some (cs.map (·.1)) := pathUnescape_encodeWith cs h
+
+/-- non-vacuity: "+%" written as `+%25`, as `%2b%25` and as `%2B%25` -/
+example : conformant [(0x2B, .plain), (0x25, .upper)] = true ∧ conformant [(0x2B, .lower), (0x25, .lower)] = true ∧
+    encodeWith [(0x2B, .plain), (0x25, .upper)] = [0x2B, 0x25, 0x32, 0x35] ∧
+    encodeWith [(0x2B, .lower), (0x25, .upper)] = [0x25, 0x32, 0x62, 0x25, 0x32, 0x35] ∧
+    conformant [(0x25, .plain)] = false := by decide
+
+/-- …in particular it is the inverse of the repository's encoder, for every byte string. -/
+theorem client_decoder_inverts_encoder (m : Bytes) : pathUnescape (percentEncode m) = some m := by
+  rw [percentEncode_own, pathUnescape_encodeWith _ (ownChoice_conformant m), ownChoice_bytes]
+
+/-- The reference client finds no disagreement in the status trailers the reference server
+writes, for every code, message and detail list. -/
+theorem client_accepts_server_trailers (code : Int) (msg : Bytes) (ds : List Detail) :
+    readBackAgrees (clientCheckStatus (statusTrailersOf code msg ds)) = true := by
+  cases ds with
+  | nil => rfl
+  | cons d t =>
+    simp [readBackAgrees, clientCheckStatus, statusTrailersOf, client_decoder_inverts_encoder]
+
+/-- …nor in those of any other server that encodes `grpc-message` as the specification allows
+and sends the same code and message in `grpc-status-details-bin`. -/
+theorem client_accepts_conformant_trailers (code : Int) (cs : List (UInt8 × Esc)) (ds : List Detail)
+    (h : conformant cs = true) :
+    readBackAgrees (clientCheckStatus
+      { status := code, message := encodeWith cs,
+        bin := some { code := code, message := cs.map (·.1), details := ds } }) = true := by
+  simp [readBackAgrees, clientCheckStatus, pathUnescape_encodeWith cs h]
+
+/-- …and it does report a message that differs (the comparison is not vacuous). -/
+theorem client_reports_other_message (code : Int) (cs : List (UInt8 × Esc)) (other : Bytes) (ds : List Detail)
+    (h : conformant cs = true) (hne : cs.map (·.1) ≠ other) :
+    (clientCheckStatus
+      { status := code, message := encodeWith cs,
+        bin := some { code := code, message := other, details := ds } }).message = true := by
+  simp [clientCheckStatus, pathUnescape_encodeWith cs h, hne]
+
+example : conformant [(0x61, .plain)] = true ∧ [((0x61 : UInt8), Esc.plain)].map (·.1) ≠ [0x62] := by decide
+
+/-- Witness that the statement discriminates: the decoder of net/url's other escaping mode
+(`QueryUnescape`, `+` = space) is not an inverse of the encoder - "1+1" comes back as "1 1". -/
+theorem query_unescape_witness :
+    queryUnescape (percentEncode [0x31, 0x2B, 0x31]) = some [0x31, 0x20, 0x31] ∧
+    pathUnescape (percentEncode [0x31, 0x2B, 0x31]) = some [0x31, 0x2B, 0x31] := by decide
+
+/-- metadata → header list (`-bin` values encoded) → grpc-go's outgoing context: the peer is
+handed the metadata's own bytes under every key, for every lawful base64. -/
+theorem md_outgoing_roundtrip (c : B64) (hc : c.Lawful) (md : MD)
+    (hlow : ∀ kv ∈ md, lower kv.1 = kv.1) (hnd : (mdKeys md).Nodup) (k : Str) :
+    mdGet (fromOutgoing (appendOutgoing c (mdToHeaders c md))) k = mdGet md k := by
+  rw [outgoing_get, md_roundtrip c hc md hlow hnd]
+
+/-- What `ConvertMetadataToProtoHeader` writes for a `-bin` key is accepted by the repository's
+validator of binary metadata (`checkBinaryMetadata`: unpadded standard base64). -/
+theorem bin_values_decode (md : MD) :
+    ∀ h ∈ mdToHeaders ⟨ConfModel.Base64.encode, ConfModel.Base64.decode⟩ md, isBin h.name = true →
+      ∀ v ∈ h.values, ∃ x, ConfModel.Base64.decodeRaw v = some x := by
+  intro h hh hb v hv
+  simp only [mdToHeaders, List.mem_map] at hh
+  obtain ⟨kv, _, rfl⟩ := hh
+  simp only [List.mem_map] at hv
+  obtain ⟨x, _, rfl⟩ := hv
+  exact ⟨x, by simp [encIfBin, hb, ConfModel.Base64.decodeRaw_encode]⟩
+
+/-- `http.Header` → `ConvertToProtoHeader` → `AddHeaders` into an empty `http.Header`: every
+key holds its values again (keys as net/http stores them: canonical, distinct). -/
+theorem http_header_roundtrip (md : MD) (hcan : ∀ kv ∈ md, canon kv.1 = kv.1) (hnd : (mdKeys md).Nodup) (k : Str) :
+    mdGet (addHeaders (convertToProtoHeader md)) k = mdGet md k := by
+  have := addPairs_get_aux canon id (fun _ v => v) [] (convertToProtoHeader md) k
+  simp only [mdGet_nil, List.nil_append, id] at this
+  unfold addHeaders addPairs pairsOf
+  rw [show (fun (h : Header) => h.values.map (fun v => (h.name, v))) =
+      (fun (h : Header) => h.values.map (fun v => (h.name, (fun _ v => v) (canon h.name) v))) from rfl]
+  rw [this, valuesFor_convert canon md hcan hnd]
+
+example : ∀ kv ∈ ([("X-A".toList, [[1]]), ("Content-Type".toList, [[2], [3]])] : MD), canon kv.1 = kv.1 := by decide
+
 /-! ## strict codecs (relative to the underlying marshaller) -/
 
 theorem strict_codec_roundtrip {M} (c : Codec M) (h : c.RoundTrips) (m : M) (d : Bytes)
